@@ -52,7 +52,9 @@ class MetaString(type):
                     raise ValueError(
                         f"String: negative capacity {string_or_int}"
                     )
-                return Info(size=string_or_int + 8)
+                # (the terminating \0 is part of the capacity: an empty
+                # string needs room for it too)
+                return Info(size=max(string_or_int, 1) + 8)
             elif isinstance(string_or_int, str):
                 data = bytes(string_or_int, "utf8")
                 size = _to_slot_size(len(data) + 1 + 8)
